@@ -1,4 +1,4 @@
 Require Extraction.
 Require Import ExtrOcamlBasic.
-From V Require Import Sem Prod Incl TrimDefs InclDefs AntichainUp AntichainUpW DownIncl DownInclCacheDefs DownInclOptDefs.
-Extraction "ex_c01.ml" incl_model gate_verdict prepared_lang prepared_shape incl_dec is_empty ta_same remove_useless leaf_match up_ac up_worklist up_worklist_keyed down_incl downc_incl downo_incl.
+From V Require Import Sem Prod Incl TrimDefs InclDefs AntichainUp AntichainUpW AntichainUpSim DownIncl DownInclCacheDefs DownInclOptDefs.
+Extraction "ex_c01.ml" incl_model gate_verdict prepared_lang prepared_shape incl_dec is_empty ta_same remove_useless leaf_match up_ac up_worklist up_worklist_keyed up_sim_model upsim_gfp down_incl downc_incl downo_incl.
